@@ -23,8 +23,8 @@ reg('C14', scenario='onion', level='exploration',
          'tokens} x 1..3 port mappings (int, (int,int), (int,"addr:port"), "virt addr:port", unix-socket pair and string), '
          'each followed by confirmed uploads and remove().',
     params=dict(max_steps=500),
-    quick=dict(units=40000, wall_cap=150),
-    thorough=dict(units=800000, wall_cap=1500),
+    quick=dict(units=30000, wall_cap=150),
+    thorough=dict(units=600000, wall_cap=1500),
     assumptions=[_TOR,
                  'the order of Port= / ClientAuth= arguments and of flags is not compared (sets / per virtual port); a bare local '
                  'port chosen by txtorcon must be 127.0.0.1:<a port the simulated reactor handed out>',
@@ -49,8 +49,8 @@ reg('C15', scenario='onion', level='exploration',
          'await_all_uploads None/False/True; rarely the creating command is answered 5xx), own upload plan over 1-4 directories '
          'with outcomes UPLOADED / FAILED / never resolved, foreign plan over 0-4 directories (shared with ours), <= ~20 HS_DESC events.',
     params=dict(max_steps=500),
-    quick=dict(units=40000, wall_cap=150),
-    thorough=dict(units=800000, wall_cap=1500),
+    quick=dict(units=30000, wall_cap=150),
+    thorough=dict(units=600000, wall_cap=1500),
     assumptions=[_HSDESC,
                  'the Deferred fires after the unsubscription round trip, so the conditions are evaluated existentially over the '
                  'prefixes of the delivered own events, not on the state at the instant of firing',
@@ -77,7 +77,7 @@ reg('C17', scenario='onion', level='fault_enumeration',
     rule='Each unit: one seeded configuration run without failure, then re-run with one failure injected at each of the 6 steps '
          '(steps behind the gate of a recorded defect only in the dedicated share of units).',
     params=dict(max_steps=700),
-    quick=dict(units=5000, wall_cap=150, chunk=20),
+    quick=dict(units=7000, wall_cap=150, chunk=25),
     thorough=dict(units=100000, wall_cap=1500, chunk=50),
     assumptions=[_HSDESC,
                  'onion: strings are exercised with controlPort= (system_tor); the forms that launch a global Tor are not simulated here',
